@@ -11,6 +11,9 @@ PROP = dict(
     assumptions=["partial by nature: totality of the modelled dispatch and indexing is proved; library panics and 'the call returns' are covered by the recover / watchdog run only",
                  "replay re-executes single inputs after the standard beacon prelude (one stored historical-summaries record)"],
     timeout={"quick": 600, "thorough": 3000},
+    # other properties' generators reach the same entry points with deeper, boundary-directed inputs (forged header
+    # proofs with chosen slots, synthetic tries, mutated bodies, every wire decoder): any panic they observe counts here
+    panic_scan=["C02", "C03", "C13", "C14"],
 )
 MANIFEST = dict(
     level="Proof (Coq, no axioms) that no index or slice expression of the modelled entry points - TALKREQ dispatch, the four TALKRESP processors, the uTP stream-body handler, the content-key dispatch of the three networks' storage adapters and validators, the beacon historical-summaries record handling - can panic for any byte string, any stored record and any order of operations, given that the code behind the dispatch does not; refutation lemmas (with witnesses) for the code as found, which were replayed on the real node and repaired by four fix: commits. Tied to the code by running a real three-network node under recover and a watchdog on boundary-directed and mutated inputs on every run. PARTIAL: library panics, handler internals and liveness are exercised, not proved.",
